@@ -5,8 +5,8 @@ from mc import monitors as M
 _m = X.make(
     "C08", M.judge_c08,
     quick=X.std_quick(), thorough=X.std_thorough(),
-    rule="every program of the E1 space: simplify/lower/fuse/optimize return within a 20 s watchdog and raise only if the unoptimized compute raises; simplify and optimize are idempotent on names (expression and collection level); non-trivial = a node with > 1 block",
-    assumptions=["watchdog of 20 s per program stands for non-termination (three orders of magnitude above the norm)", "small scope as C01"],
+    rule="every program of the E1 space: simplify/lower/fuse/optimize return within 20 s of CPU time (ITIMER_VIRTUAL watchdog, independent of machine load; 600 s wall-clock backstop) and raise only if the unoptimized compute raises; simplify and optimize are idempotent on names (expression and collection level); non-trivial = a node with > 1 block",
+    assumptions=["20 s of CPU time per program stands for non-termination (three orders of magnitude above the norm)", "small scope as C01"],
     floors={"simplify_changed": 100, "lower_changed": 100, "fuse_changed": 50},
 )
 globals().update(_m)
